@@ -27,6 +27,7 @@ import (
 
 	"github.com/gofiber/fiber/v2"
 	"github.com/versity/versitygw/s3response"
+	"github.com/versity/versitygw/verifhook"
 )
 
 type Webhook struct {
@@ -95,6 +96,7 @@ func (w *Webhook) SendEvent(ctx *fiber.Ctx, meta EventMeta) {
 			schema.Records[0].S3.Object.Key = key
 			schema.Records[0].S3.Object.VersionId = obj.VersionId
 
+			verifhook.At("ev.built", "key", key)
 			go w.send(schema)
 		}
 
@@ -103,6 +105,7 @@ func (w *Webhook) SendEvent(ctx *fiber.Ctx, meta EventMeta) {
 
 	schema := createEventSchema(ctx, meta, ConfigurationIdWebhook)
 
+	verifhook.At("ev.built", "path", ctx.Path())
 	go w.send(schema)
 }
 
@@ -111,6 +114,7 @@ func (w *Webhook) Close() error {
 }
 
 func (w *Webhook) send(event EventSchema) {
+	verifhook.At("ev.send")
 	eventBytes, err := json.Marshal(event)
 	if err != nil {
 		fmt.Fprintf(os.Stderr, "failed to parse event data: %v\n", err.Error())
